@@ -1,5 +1,125 @@
 import Ptn.C15.Model
-/-! Line-protocol handler for the C15 model (core Lean only). -/
+/-! Line-protocol handler for the C15 model (core Lean only).
+
+  gen <ket> <bra> H <n> T… HL <n> (<label> <sym01>)… HC <n> <coeffkey>…
+      J <n> T… JL <n> (<label> <real01><herm01><ident01><sym01>)… JC <n> <coeffkey>…
+      DS <n> <label>…
+    where T = `<num> <den> <coeff> <k> (<site> <label>)×k`; `DS` lists the derived labels
+    (`…_H`, `…_mult_…`) that are symmetric.
+    → `terms=<t>;<t>;… keys=<k>,<k>,… coeffs=<c>,<c>,…` with t = `num/den|coeff|site:label,…`
+      (generation order; dict orders as inserted), or `ValueError` (ket/bra identifiers collide)
+  gksl …same arguments…  → the term list of the GKSL prescription (`gkslTerms`)
+-/
 namespace Ptn.C15
-def handle (args : List String) : String := "bad-op"
+
+abbrev P := StateT (List String) Option
+
+def tok : P String := do
+  match (← get) with
+  | [] => failure
+  | t :: ts => set ts; pure t
+
+def nat : P Nat := do
+  match (← tok).toNat? with
+  | some n => pure n
+  | none => failure
+
+def int : P Int := do
+  match (← tok).toInt? with
+  | some n => pure n
+  | none => failure
+
+def expect (s : String) : P Unit := do
+  if (← tok) = s then pure () else failure
+
+def many {α : Type} (p : P α) : Nat → P (List α)
+  | 0 => pure []
+  | n + 1 => do
+    let a ← p
+    let rest ← many p n
+    pure (a :: rest)
+
+def counted {α : Type} (p : P α) : P (List α) := do
+  let n ← nat
+  many p n
+
+def term : P Term := do
+  let num ← int
+  let den ← nat
+  if den = 0 then failure
+  let coeff ← tok
+  let tp ← counted (do let s ← tok; let l ← tok; pure (s, l))
+  pure ⟨mkRat num den, coeff, tp⟩
+
+def bit (c : Char) : Option Bool :=
+  if c = '1' then some true else if c = '0' then some false else none
+
+def flag1 : P (Label × Bool) := do
+  let l ← tok
+  let f ← tok
+  match f.toList with
+  | [c] => match bit c with
+    | some b => pure (l, b)
+    | none => failure
+  | _ => failure
+
+def flag4 : P (Label × Bool × Bool × Bool × Bool) := do
+  let l ← tok
+  let f ← tok
+  match f.toList.mapM bit with
+  | some [r, h, i, s] => pure (l, r, h, i, s)
+  | _ => failure
+
+def parseInput : P Input := do
+  let ket ← tok
+  let bra ← tok
+  expect "H"
+  let hterms ← counted term
+  expect "HL"
+  let hl ← counted flag1
+  expect "HC"
+  let hc ← counted tok
+  expect "J"
+  let jterms ← counted term
+  expect "JL"
+  let jl ← counted flag4
+  expect "JC"
+  let jc ← counted tok
+  expect "DS"
+  let ds ← counted tok
+  if !(← get).isEmpty then failure
+  let look (tbl : List (Label × Bool)) (l : Label) : Bool := (List.lookup l tbl).getD false
+  let fl : Flags :=
+    { symH := look hl
+      real := look (jl.map fun (l, r, _, _, _) => (l, r))
+      herm := look (jl.map fun (l, _, h, _, _) => (l, h))
+      ident := look (jl.map fun (l, _, _, i, _) => (l, i))
+      symJ := fun l => look (jl.map fun (l, _, _, _, s) => (l, s)) l || ds.contains l }
+  pure { ham := { terms := hterms, convKeys := hl.map (·.1), coeffKeys := hc }
+         jumps := jterms, jumpKeys := jl.map (·.1), jumpCoeffKeys := jc, flags := fl
+         ketSuffix := ket, braSuffix := bra }
+
+def showRat (q : Rat) : String := s!"{q.num}/{q.den}"
+
+def showTerm (t : Term) : String :=
+  s!"{showRat t.frac}|{t.coeff}|" ++ ",".intercalate (t.tp.map fun (s, l) => s!"{s}:{l}")
+
+def showTerms (ts : List Term) : String := ";".intercalate (ts.map showTerm)
+
+def handle (args : List String) : String :=
+  match args with
+  | "gen" :: rest =>
+    match (parseInput.run rest) with
+    | some (inp, _) =>
+      match generateLindbladian inp with
+      | some h => s!"terms={showTerms h.terms} keys={",".intercalate h.convKeys} " ++
+                  s!"coeffs={",".intercalate h.coeffKeys}"
+      | none => "ValueError"
+    | none => "bad-op"
+  | "gksl" :: rest =>
+    match (parseInput.run rest) with
+    | some (inp, _) => s!"terms={showTerms (gkslTerms inp)}"
+    | none => "bad-op"
+  | _ => "bad-op"
+
 end Ptn.C15
